@@ -782,7 +782,7 @@ class Interp:
         if node.id in env:
             return env[node.id]
         if node.id in ("np", "maths", "numerical", "self", "sc", "sys", "operator", "functools",
-                       "itertools", "collections"):
+                       "itertools", "collections", "math"):
             return _Module(node.id)
         if node.id in ("True", "False", "None"):
             return {"True": True, "False": False, "None": None}[node.id]
@@ -1387,6 +1387,12 @@ class Interp:
             return _Partial(_Module("operator.<attrs>"), [tuple(args)], {})
         if isinstance(f, _Module) and f.name.startswith("operator."):
             return self.operator_call(f.name[9:], args, node)
+        if isinstance(f, _Module) and f.name == "math.prod" and args \
+                and isinstance(args[0], (list, tuple)):
+            acc = kwargs.get("start", 1)
+            for x in args[0]:
+                acc = self.binop(ast.Mult(), acc, x, node)
+            return acc
         if isinstance(f, _Module) and f.name == "functools.reduce" and len(args) >= 2:
             seq = list(args[1])
             acc = args[2] if len(args) > 2 else seq.pop(0)
@@ -1465,13 +1471,15 @@ class Interp:
         if name == "slice":
             return slice(*args)
         if name == "iter" and len(args) == 1 and isinstance(args[0], (list, tuple, range)):
-            return list(args[0])
+            return list(args[0])        # a fresh list: consuming it leaves the sequence alone
         if name == "next":
             # generators are evaluated eagerly to lists (their elements have no effects here)
-            if not isinstance(args[0], (list, tuple, range)):
+            # and next() consumes: only an iterator can be its argument, so the list is the
+            # eager image of one and loses its first element
+            if not isinstance(args[0], list):
                 raise Unsupported("next of " + type(args[0]).__name__)
             if len(args[0]):
-                return args[0][0]
+                return args[0].pop(0)
             if len(args) > 1:
                 return args[1]
             raise Unsupported("next of an exhausted iterator")
